@@ -1,7 +1,7 @@
 """Engine ``algebra``: C20 declaration algebra laws (DESIGN 3.20)."""
 from zope.interface import (
     Interface, alsoProvides, classImplements, classImplementsFirst, classImplementsOnly,
-    directlyProvidedBy, directlyProvides, implementedBy, implementer, noLongerProvides,
+    directlyProvidedBy, directlyProvides, implementedBy, implementer, noLongerProvides, providedBy,
 )
 from zope.interface.declarations import Declaration
 from zope.interface.interface import InterfaceClass
@@ -303,6 +303,28 @@ def run_case(ctx, rng, job):
         ctx.count('noLongerProvides')
         if not (len(got) == len(exp) and all(x is y for x, y in zip(got, exp))):
             ctx.violation('noLongerProvides-keeps-subinterfaces', {'had': nm(cur), 'removed': nm(j), 'got': nm(got), 'expected': nm(exp)})
+    # what an object provides, handed over as an argument (``Declaration(providedBy(y))``, ``directlyProvides(x, providedBy(y))``):
+    # an object's declaration is flattened in place, to the interfaces it lists at that moment; a later declaration on
+    # y's class does not show in what was built from it
+    if len(ifs) >= 3:
+        qa, qb, qc = rng.sample(ifs, 3)
+        KT = type('KTemplate', (), {})
+        classImplements(KT, qa)
+        y = KT()
+        directlyProvides(y, qb)
+        src_list = list(providedBy(y))
+        d1 = Declaration(providedBy(y))
+        x1 = type('KOther', (), {})()
+        directlyProvides(x1, providedBy(y))
+        l1, l2 = list(d1), list(directlyProvidedBy(x1))
+        classImplements(KT, qc)
+        ctx.ev(2)
+        ctx.count('declarations_built_from_what_an_object_provides')
+        for label, before_, now in (('Declaration(providedBy(y))', l1, list(d1)), ('directlyProvides(x, providedBy(y))', l2, list(directlyProvidedBy(x1)))):
+            if not (len(before_) == len(src_list) and all(a is b for a, b in zip(before_, src_list))):
+                ctx.violation('declaration-from-provided-not-flattened-in-place', {'form': label, 'got': nm(before_), 'expected': nm(src_list)})
+            if not (len(now) == len(before_) and all(a is b for a, b in zip(now, before_))):
+                ctx.violation('declaration-follows-a-later-class-declaration', {'form': label, 'was': nm(before_), 'now': nm(now)})
     # interfaces handed over through transparent proxies (objects that forward everything and say they are of the
     # wrapped interface's class, as security and location proxies do): one interface each, wherever an interface goes
     if len(ifs) >= 3:
